@@ -117,7 +117,8 @@ def install(R):
         E.axiom(z3.ForAll([i], z3.Implies(z3.And(0 <= i, i < n),
                                           z3.And(0 <= pi(i), pi(i) < n, inv(pi(i)) == i, out.get(i) == fs.get(pi(i))))))
         E.axiom(z3.ForAll([i], z3.Implies(z3.And(0 <= i, i < n),
-                                          z3.And(0 <= inv(i), inv(i) < n, pi(inv(i)) == i))))
+                                          z3.And(0 <= inv(i), inv(i) < n, pi(inv(i)) == i,
+                                                 out.get(inv(i)) == fs.get(i)))))
         E.used_lemmas.add("sort_perm")
         E.ps.setdefault("sorts", []).append((out, fs, pi, inv))
         return out
